@@ -46,7 +46,12 @@ type Ask struct {
 type Case struct {
 	Actors []string       `json:"actors"`
 	Asks   []Ask          `json:"asks"`
-	Kills  map[string]int `json:"kills,omitempty"` // actor -> ms at which it is killed
+	Kills  map[string]int `json:"kills,omitempty"` // actor -> ms at which it terminates
+	// How an actor of Kills terminates ("" = immediate kill): poison | restart-kill (it fails, its restart waits for a
+	// slow child, a kill abandons the restart) | zombie-kill (it fails, the restart fails in OnRestarted, a kill releases
+	// the zombie) | stop-decision (it fails and its supervisor decides Stop). All steps happen at the same virtual instant.
+	How         map[string]string `json:"how,omitempty"`
+	SysDecision string            `json:"sysDecision,omitempty"` // decision of the system strategy: "" (library default) | restart | stop
 }
 
 func (c Case) JSON() string { b, _ := json.Marshal(c); return string(b) }
@@ -120,8 +125,19 @@ func genCase(t *rapid.T) Case {
 	if rapid.IntRange(0, 1).Draw(t, "kill") == 0 {
 		c.Kills = map[string]int{}
 		k := rapid.IntRange(1, 2).Draw(t, "nKills")
+		c.SysDecision = rapid.SampledFrom([]string{"", "", "restart", "restart", "stop"}).Draw(t, "sysDecision")
+		hows := []string{"", "", "poison"}
+		switch c.SysDecision {
+		case "restart":
+			hows = append(hows, "restart-kill", "restart-kill", "zombie-kill", "zombie-kill")
+		case "stop":
+			hows = append(hows, "stop-decision", "stop-decision")
+		}
+		c.How = map[string]string{}
 		for i := 0; i < k; i++ {
-			c.Kills[rapid.SampledFrom(c.Actors).Draw(t, "victim")] = rapid.IntRange(0, 6).Draw(t, "killAt")
+			v := rapid.SampledFrom(c.Actors).Draw(t, "victim")
+			c.Kills[v] = rapid.IntRange(0, 6).Draw(t, "killAt")
+			c.How[v] = rapid.SampledFrom(hows).Draw(t, "how")
 		}
 	}
 	return c
@@ -141,10 +157,22 @@ type outcome struct {
 func run(t *testing.T, c Case) (v *verdict, nontrivial bool, labels []string) {
 	lab := map[string]bool{}
 	res := vt.Run(t, func() {
-		w := world.New(world.Options{AskTimeout: time.Hour})
+		opt := world.Options{AskTimeout: time.Hour}
+		if c.SysDecision != "" {
+			opt.SysDecisions = []string{c.SysDecision}
+		}
+		w := world.New(opt)
 		defer w.Close()
 		for _, n := range c.Actors {
-			_, _ = w.Spawn(world.Spec{Name: n})
+			sp := world.Spec{Name: n}
+			if c.How[n] == "zombie-kill" {
+				sp.FailRestarted, sp.FailMode = []int{1}, "panic"
+			}
+			_, _ = w.Spawn(sp)
+			if c.How[n] == "restart-kill" {
+				child := world.Spec{Name: "k", GateKill: "slow-child-of-" + n}
+				w.Tell(n, "", 0, []world.Step{{Op: "spawn", Spec: &child}})
+			}
 		}
 		vt.Settle()
 		horizon := 0
@@ -208,7 +236,25 @@ func run(t *testing.T, c Case) (v *verdict, nontrivial bool, labels []string) {
 				if at == tick {
 					if _, done := killedAt[n]; !done {
 						killedAt[n] = tick
-						w.Kill(n, "", false)
+						lab["death:"+c.How[n]] = true
+						switch c.How[n] {
+						case "poison":
+							w.Kill(n, "", true)
+						case "restart-kill":
+							w.Tell(n, "", 0, []world.Step{{Op: "panic"}})
+							vt.Settle() // the restart waits for the slow child
+							w.Kill(n, "", false)
+							vt.Settle()
+							w.Open("slow-child-of-" + n)
+						case "zombie-kill":
+							w.Tell(n, "", 0, []world.Step{{Op: "panic"}})
+							vt.Settle() // OnRestarted failed: a zombie
+							w.Kill(n, "", false)
+						case "stop-decision":
+							w.Tell(n, "", 0, []world.Step{{Op: "panic"}})
+						default:
+							w.Kill(n, "", false)
+						}
 					}
 				}
 			}
@@ -386,7 +432,7 @@ func run(t *testing.T, c Case) (v *verdict, nontrivial bool, labels []string) {
 	})
 	if v == nil && res.Panic != nil {
 		if res.Deadlock {
-			v = &verdict{"C04/blocks-beyond-completion|deadlock", fmt.Sprintf("the bubble could not end (a waiter is blocked for ever): %v", res.Panic)}
+			v = &verdict{"C04/blocks-beyond-completion|deadlock", fmt.Sprintf("the bubble could not end (a waiter is blocked for ever): %v\n%s", res.Panic, res.Stack)}
 		} else {
 			v = &verdict{"C04/harness-panic", fmt.Sprintf("%v\n%s", res.Panic, res.Stack)}
 		}
